@@ -374,7 +374,7 @@ func apply(in *Instance, id int, op Op, via string) (err error) {
 	case strings.HasPrefix(via, "clo"):
 		var fid, j int
 		fmt.Sscanf(via, "clo%d.%d", &fid, &j)
-		_, err = starlark.Call(th, in.Objs[fid], starlark.Tuple{starlark.MakeInt(j), starlark.String(name), a, b}, nil)
+		_, err = starlark.Call(th, in.Objs[fid], starlark.Tuple{starlark.MakeInt(j), starlark.String(name), a, b}, in.D.Nodes[fid].Kwargs())
 		return err
 	}
 	return fmt.Errorf("unknown via %s", via)
@@ -443,104 +443,6 @@ type Alias struct {
 	After  []Val  `json:"after"`
 }
 
-var derivExprs = map[string][]string{
-	"list":  {"x[:]", "x[0:len(x)]", "x[1:]", "x[:-1]", "x[::1]", "list(x)", "x + []", "[] + x", "x * 1", "sorted(x, key=lambda e: 0)", "[e for e in x]", "list(reversed(x))"},
-	"dict":  {"dict(x)", "x.items()", "x.keys()", "x.values()", "x | {}", "{} | x", "dict(x.items())", "{k: v for k, v in x.items()}"},
-	"set":   {"set(x)", "x.union([])", "x | set()", "x & x", "x - set()", "x ^ set()", "list(x)", "sorted(x, key=lambda e: 0)"},
-	"tuple": {"list(x)", "x + ()", "x[:]", "[e for e in x]"},
-}
-
-type derivedMut struct {
-	name string
-	f    func(th *starlark.Thread, d starlark.Value)
-}
-
-func call(th *starlark.Thread, d starlark.Value, name string, args ...starlark.Value) {
-	if ha, ok := d.(starlark.HasAttrs); ok {
-		if m, _ := ha.Attr(name); m != nil {
-			starlark.Call(th, m, starlark.Tuple(args), nil)
-		}
-	}
-}
-
-var big = starlark.MakeInt(999)
-
-var derivedMuts = []derivedMut{
-	{"d[0] = 999", func(th *starlark.Thread, d starlark.Value) {
-		switch x := d.(type) {
-		case *starlark.List:
-			if x.Len() > 0 {
-				x.SetIndex(0, big)
-			}
-		case *starlark.Dict:
-			if ks := x.Keys(); len(ks) > 0 {
-				x.SetKey(ks[0], big)
-			}
-		case *starlark.Set:
-			x.Insert(big)
-		}
-	}},
-	{"d[-1] = 999", func(th *starlark.Thread, d starlark.Value) {
-		if x, ok := d.(*starlark.List); ok && x.Len() > 0 {
-			x.SetIndex(x.Len()-1, big)
-		}
-	}},
-	{"d.clear()", func(th *starlark.Thread, d starlark.Value) { call(th, d, "clear") }},
-	{"d.pop()", func(th *starlark.Thread, d starlark.Value) {
-		if _, ok := d.(*starlark.Dict); ok {
-			call(th, d, "popitem")
-		} else {
-			call(th, d, "pop")
-		}
-	}},
-	{"d.pop(0) / remove first", func(th *starlark.Thread, d starlark.Value) {
-		switch x := d.(type) {
-		case *starlark.List:
-			call(th, d, "pop", starlark.MakeInt(0))
-		case *starlark.Dict:
-			if ks := x.Keys(); len(ks) > 0 {
-				x.Delete(ks[0])
-			}
-		case *starlark.Set:
-			it := x.Iterate()
-			var k starlark.Value
-			ok := it.Next(&k)
-			it.Done()
-			if ok {
-				x.Delete(k)
-			}
-		}
-	}},
-	{"d.insert(0, 999) / add", func(th *starlark.Thread, d starlark.Value) {
-		switch d.(type) {
-		case *starlark.List:
-			call(th, d, "insert", starlark.MakeInt(0), big)
-		case *starlark.Dict:
-			call(th, d, "setdefault", big, big)
-		case *starlark.Set:
-			call(th, d, "add", big)
-		}
-	}},
-	{"d.append(999); d[0] = 998", func(th *starlark.Thread, d starlark.Value) {
-		if x, ok := d.(*starlark.List); ok {
-			x.Append(big)
-			x.SetIndex(0, starlark.MakeInt(998))
-		}
-	}},
-	{"Go Clear()", func(th *starlark.Thread, d starlark.Value) {
-		switch x := d.(type) {
-		case *starlark.List:
-			x.Clear()
-		case *starlark.Dict:
-			x.Clear()
-		case *starlark.Set:
-			x.Clear()
-		}
-	}},
-}
-
-var evalOpts = &syntax.FileOptions{Set: true}
-
 func deriveAll(in *Instance, id int, frozen bool, out *GraphOut) {
 	nd := in.D.Nodes[id]
 	v := in.Objs[id]
@@ -550,10 +452,10 @@ func deriveAll(in *Instance, id int, frozen bool, out *GraphOut) {
 		f   func() starlark.Value
 	}
 	var ds []deriv
-	for _, e := range derivExprs[nd.Kind] {
+	for _, e := range graphs.DerivExprs[nd.Kind] {
 		e := e
 		ds = append(ds, deriv{e, func() starlark.Value {
-			r, err := starlark.EvalOptions(evalOpts, th, "derive", e, starlark.StringDict{"x": v})
+			r, err := starlark.EvalOptions(graphs.EvalOpts, th, "derive", e, starlark.StringDict{"x": v})
 			if err != nil {
 				return nil
 			}
@@ -568,8 +470,9 @@ func deriveAll(in *Instance, id int, frozen bool, out *GraphOut) {
 		}
 	}
 	for _, dv := range ds {
-		for _, m := range derivedMuts {
+		for _, m := range graphs.DerivedMuts {
 			before := in.Contents(id)
+			rawBefore, _, _, _ := starlark.VerifHeader(v)
 			d := dv.f()
 			if d == nil {
 				continue
@@ -581,12 +484,13 @@ func deriveAll(in *Instance, id int, frozen bool, out *GraphOut) {
 			}
 			func() {
 				defer func() { recover() }()
-				m.f(th, d)
+				m.F(th, d)
 			}()
 			out.Derived++
 			after := in.Contents(id)
-			if !graphs.EqVals(before, after) {
-				out.Alias = append(out.Alias, Alias{Node: id, Kind: nd.Kind, Frozen: frozen, How: dv.how, Mut: m.name, Before: before, After: after})
+			rawAfter, _, _, _ := starlark.VerifHeader(v)
+			if !graphs.EqVals(before, after) || (frozen && !bytes.Equal(rawBefore, rawAfter)) {
+				out.Alias = append(out.Alias, Alias{Node: id, Kind: nd.Kind, Frozen: frozen, How: dv.how, Mut: m.Name, Before: before, After: after})
 				return // the original is damaged: stop here
 			}
 		}
@@ -849,7 +753,7 @@ func runGraph(seed uint64, i int, maxProbes int) GraphOut {
 	{
 		dv := graphs.Instantiate(d, src)
 		for _, nd := range d.Nodes {
-			if dv.Objs[nd.ID] == nil || derivExprs[nd.Kind] == nil {
+			if dv.Objs[nd.ID] == nil || graphs.DerivExprs[nd.Kind] == nil {
 				continue
 			}
 			deriveAll(dv, nd.ID, reach[nd.ID] || nd.PreFrozen, &out)
